@@ -385,6 +385,12 @@ class Interp:
                 st.cons.add_le(q.scale(c) - a)                 # c*q <= a
                 st.cons.add_le(a - q.scale(c) - (c - 1))       # a - c*q <= c-1
                 r = q if op == '/' else a - q.scale(c)
+            elif op == '%' and b.is_const() and b.c > 0:
+                # C++ remainder of a possibly negative dividend: |r| < c (sign follows the dividend)
+                c = int(b.c)
+                r = self.fresh(st, 'rem', None, lo=-(c - 1), hi=c - 1)
+                if st.cons.entails_le(a):
+                    st.cons.add_le(r)
         elif op == '<<':
             if b.is_const() and 0 <= b.c < 63:
                 r = a.scale(1 << int(b.c))
